@@ -59,3 +59,26 @@ impl Str {
           match r { Some(p) => self@ == p.0@ + lit(d) + p.1@ && (forall|i: int| 0 <= i < p.0@.len() ==> !occurs_at(self@, lit(d), i)), None => forall|i: int| !occurs_at(self@, lit(d), i) } { unimplemented!() }
 }
 pub uninterp spec fn spec_split_once(s: Str, d: Seq<u8>) -> Option<(Str, Str)>;
+// str::split("<literal>") consumed by `.skip(n).collect::<String>()`: the segments as a vector, and the concatenation of a suffix of them
+pub uninterp spec fn spec_split(s: Seq<u8>, d: Seq<u8>) -> Seq<Seq<u8>>;
+pub open spec fn flatten_from(segs: Seq<Seq<u8>>, n: int) -> Seq<u8> decreases segs.len() - n {
+    if n < 0 || n >= segs.len() { Seq::<u8>::empty() } else { segs[n] + flatten_from(segs, n + 1) }
+}
+pub struct Segments { pub v: Vec<Str> }
+impl Segments {
+    pub open spec fn view(&self) -> Seq<Seq<u8>> { Seq::new(self.v@.len(), |i: int| self.v@[i]@) }
+    // Iterator::skip(n) followed by collect::<String>(): the remaining segments concatenated WITHOUT separator
+    #[verifier::external_body] pub fn skip_collect(&self, n: usize) -> (r: Str) ensures r@ == flatten_from(self@, n as int) { unimplemented!() }
+}
+impl Str {
+    #[verifier::external_body] pub fn split_lit(&self, d: &str) -> (r: Segments)
+        ensures r@ == spec_split(self@, lit(d)), r@.len() >= 1 { unimplemented!() }
+    // Option<&str>::unwrap_or_default() on the result of toml's as_str(): "" when absent
+    #[verifier::external_body] pub fn empty() -> (r: Str) ensures r@ == Seq::<u8>::empty() { unimplemented!() }
+}
+// std: splitting `L d K` where neither L nor K contains d yields exactly [L, K]
+#[verifier::external_body]
+pub proof fn axiom_split_two(l: Seq<u8>, d: Seq<u8>, k: Seq<u8>)
+    requires d.len() > 0, forall|i: int| !occurs_at(l, d, i), forall|i: int| !occurs_at(k, d, i), forall|i: int| 0 <= i < l.len() ==> !occurs_at(l + d + k, d, i),
+    ensures spec_split(l + d + k, d) == seq![l, k],
+{ }
